@@ -105,6 +105,24 @@ def fillSalt (salt : Array UInt8) (c : Box) : Box :=
 def expandKey (key : Array UInt8) (c : Box) : Box := fill (xorKey key c)
 def expandKeyWithSalt (key salt : Array UInt8) (c : Box) : Box := fillSalt salt (xorKey key c)
 
+/-! ### spec shape of the key schedule (Schneier): xor the P-array with the key repeated cyclically,
+    then replace P and the four S-boxes, two words at a time, by successive encryptions of the running
+    block (starting from the all-zero block), xoring the cyclic salt stream into the block first in
+    the salted (bcrypt "eksblowfish") variant -/
+
+def xorKeySpec (key : Array UInt8) (c : Box) : Box :=
+  (List.range 18).foldl (fun c i => c.set! i (c[i]! ^^^ streamWord key i)) c
+
+/-- step `i`: encrypt the running block (xored with stream words 2i, 2i+1), store it at words 2i, 2i+1 -/
+def specStep (w : Nat → UInt32) (st : Box × UInt32 × UInt32) (i : Nat) : Box × UInt32 × UInt32 :=
+  let (l, r) := encryptBlock st.1 (st.2.1 ^^^ w (2*i)) (st.2.2 ^^^ w (2*i+1))
+  ((st.1.set! (2*i) l).set! (2*i+1) r, l, r)
+
+def fillSpec (w : Nat → UInt32) (c : Box) : Box := ((List.range 521).foldl (specStep w) (c, 0, 0)).1
+
+def expandKeySpec (key : Array UInt8) (c : Box) : Box := fillSpec (fun _ => 0) (xorKeySpec key c)
+def expandKeyWithSaltSpec (key salt : Array UInt8) (c : Box) : Box := fillSpec (streamWord salt) (xorKeySpec key c)
+
 /-- `NewCipher`: 1 ≤ len(key) ≤ 56 -/
 def newCipher (key : Bytes) : Option Box :=
   if key.length < 1 || key.length > 56 then none else some (expandKey key.toArray initBox)
